@@ -898,7 +898,8 @@ class Variable(CanBehaveLikeAVariable[T]):
             if isinstance(domain, HashedIterable):
                 self._domain_ = domain
             if isinstance(domain, SymbolicExpression):
-                new_domain = (v[domain._id_] for v in domain._evaluate__())
+                # as a value: the members of the domain are what the expression evaluates to, whatever their truthiness.
+                new_domain = (v[domain._id_] for v in domain._evaluate_as_value_())
                 if isinstance(self._type_, type):
                     # the values of an expression are filtered by the type of the variable like any supplied domain,
                     # here because they only exist once the expression is evaluated.
